@@ -242,9 +242,29 @@ Definition and_then_checked (P : enc_params) (a : approx) : result frounded :=
       match into_float_checked P s e with Ok fr => Ok (fr_and_then (Some r) fr) | o => o end
   end.
 
+(** the division route of Context::convert_base after the repair of F39 (fourth round), generic in
+    the target base NB: a dividend with fewer than p + digits(divisor) digits is padded, then the
+    exact quotient is cut to exactly p digits and rounded ONCE by round_ratio with the dropped
+    digits and the remainder (repr_div, whose quotient can have p + 1 digits, is no longer called).
+    Operands: normal forms s1 * NB^e1 (s1 <> 0: a finite Repr with a non-zero exponent has a
+    non-zero significand) and s2 * NB^e2 (s2 > 0).  Repr::new of an exact result strips zeros. *)
+Definition div_round_once (NB p : Z) (m : mode) (s1 e1 s2 e2 : Z) : approx :=
+  let min_digits := p + dlen NB s2 in
+  let pad := if dlen NB s1 <? min_digits then min_digits - dlen NB s1 else 0 in
+  let n := s1 * NB ^ pad in
+  let ne := e1 - pad in
+  let q := Z.quot n s2 in
+  let r := Z.rem n s2 in
+  let shift := dlen NB q - p in
+  let exponent := ne - e2 + shift in
+  let '(hi, lo) := split_digits NB q shift in
+  let rem := lo * s2 + r in
+  if rem =? 0 then (let '(h, x) := normalize NB hi exponent in AExact h x)
+  else let a := round_ratio m hi rem (s2 * NB ^ shift) in AInexact (hi + adj a) exponent a.
+
 (** Context::convert_base::<B, 2> on the routes that need no logarithm: B a power of two (the
-    exponent is multiplied), or |exponent| <= THRESHOLD_SMALL_EXP (exact power, or repr_div by the
-    power).  The exact routes round to the context precision (after C08's repair). *)
+    exponent is multiplied), or |exponent| <= THRESHOLD_SMALL_EXP (exact power, or the division by
+    the power rounded once).  Every route ends in one rounding to the context precision. *)
 Definition ilog_exact2 (B : Z) : Z := if B =? 2 ^ Z.log2 B then Z.log2 B else 0.
 Definition convert_base_to2 (B p : Z) (m : mode) (s e : Z) : result approx :=
   let n := ilog_exact2 B in
@@ -253,9 +273,19 @@ Definition convert_base_to2 (B p : Z) (m : mode) (s e : Z) : result approx :=
   else
     let '(s1, e1) := normalize 2 s 0 in
     let '(s2, e2) := normalize 2 (B ^ (- e)) 0 in
+    Ok (div_round_once 2 p m s1 e1 s2 e2).
+
+(** the division route BEFORE the repair (finding F39, kept for its refutation): a short dividend
+    went through repr_div, which returns up to p + 1 digits *)
+Definition convert_base_to2_old (B p : Z) (m : mode) (s e : Z) : result approx :=
+  let n := ilog_exact2 B in
+  if 1 <? n then (let '(s0, e0) := normalize 2 s (e * n) in Ok (repr_round 2 p m s0 e0))
+  else if 0 <=? e then (let '(s0, e0) := normalize 2 (s * B ^ e) 0 in Ok (repr_round 2 p m s0 e0))
+  else
+    let '(s1, e1) := normalize 2 s 0 in
+    let '(s2, e2) := normalize 2 (B ^ (- e)) 0 in
     if dlen 2 s1 <=? p + dlen 2 s2 then repr_div 2 p m s1 e1 s2 e2
     else
-      (* a dividend too long for repr_div: divide exactly, round the quotient once *)
       let q := Z.quot s1 s2 in
       let r := Z.rem s1 s2 in
       let shift := dlen 2 q - p in
@@ -269,6 +299,9 @@ Definition convert_base_to2 (B p : Z) (m : mode) (s e : Z) : result approx :=
 Definition fbig_to_float (P : enc_params) (B : Z) (m : mode) (s e : Z) : result frounded :=
   if B =? 2 then Ok (fbig2_to_float P m s e)
   else rbind (convert_base_to2 B (MB P + 1) m s e) (and_then_checked P).
+Definition fbig_to_float_old (P : enc_params) (B : Z) (m : mode) (s e : Z) : result frounded :=
+  if B =? 2 then Ok (fbig2_to_float P m s e)
+  else rbind (convert_base_to2_old B (MB P + 1) m s e) (and_then_checked P).
 
 (** ---- rational/src/third_party/dashu_float.rs: Repr::to_float (after the repair of F37: the
     quotient has at least p digits; exactly p are kept, the digits below them and the remainder of
